@@ -143,8 +143,8 @@ func init() {
 			var x result
 			select {
 			case x = <-ch:
-			case <-time.After(5 * time.Second):
-				return map[string]interface{}{"hang": "replacement filter did not return within 5s"}, "hang"
+			case <-time.After(20 * time.Second):
+				return map[string]interface{}{"hang": "replacement filter did not return within 20s"}, "hang"
 			}
 			if x.err != nil {
 				e := x.err.Error()
